@@ -96,7 +96,7 @@ def run(ctx):
     t0 = time.time()
     res, nodes, edges, init = tlc.state_graph("ControlAgree", cfg, ctx.scratch, workers=1, timeout=600 if ctx.quick else 3000)
     ctx.add_tlc(res, "exhaustive (safety + termination), graph dumped")
-    ctx.note("constants", consts)
+    ctx.note("constants", {k: sorted(v) for k, v in consts.items()})
     ctx.note("exhaustive", True)
     timing = {"tlc_graph": round(time.time() - t0, 1)}
     if res.violation:
@@ -107,11 +107,11 @@ def run(ctx):
     ctx.note("vacuity_witnesses_reached", len(WITNESSES))
 
     if not ctx.quick:
-        big = dict(consts, KPeers={1, 2, 3}, UPeers={4}, LocalVers={"A", "B"}, Waits={3, 5})
+        big = dict(consts, KPeers={1, 2, 3}, UPeers={4}, LocalVers={"A"}, Waits={3, 5})
         bcfg = tlc.write_cfg(os.path.join(ctx.scratch, "agree_big.cfg"), spec="Spec", constants=big, invariants=INVARIANTS,
-                             properties=["Terminates"], deadlock=False)
+                             deadlock=False)
         bres = tlc.check_model("ControlAgree", bcfg, ctx.scratch, timeout=3000)
-        ctx.add_tlc(bres, "exhaustive, 3 known peers, both local versions (spec only)")
+        ctx.add_tlc(bres, "exhaustive, 3 known peers + 1 unknown (spec only, safety)")
         if bres.violation:
             ctx.violation("TLC: %s violated in ControlAgree.tla (3 known peers)" % bres.invariant,
                           replay={"trace": [s for _, s in bres.trace()]}, signature="spec:%s" % bres.invariant)
@@ -149,7 +149,8 @@ def run(ctx):
         if by_sig[sig] <= MAX_REPORT_PER_SIGNATURE:
             ctx.violation("%s, wait %.1f s, polls %s: %s" % (states[0]["mode"], states[0]["wait"] / 10.0,
                                                               [dict(s["snap"]) for s in polls], d),
-                          replay={"constants": consts, "walk": states, "diff": d}, signature=sig)
+                          replay={"kpeers": sorted(consts["KPeers"]), "upeers": sorted(consts["UPeers"]), "walk": states, "diff": d},
+                          signature=sig)
     timing["replay"] = round(time.time() - t0, 1)
     ctx.note("behaviours_replayed", len(walks))
     ctx.note("timing_s", timing)
@@ -208,8 +209,7 @@ def _fix(obj):
 def replay(ctx, obj):
     from harness.replay import control as rc
     obj = _fix(obj)
-    consts = obj["constants"]
-    hs = _harnesses(consts)
+    hs = _harnesses({"KPeers": obj["kpeers"], "UPeers": obj["upeers"]})
     walk = obj["walk"]
     got, d = rc.agree_run(hs, walk)
     polls = [s for s in walk[1:] if s["act"]["name"] == "Poll"]
